@@ -127,6 +127,7 @@ class Driver {
   std::vector<ref::Cell> cells;  // the model: current filtered complex, boundaries by position
   std::vector<unsigned> ids;     // identifier of the cell at each position
   std::vector<std::string> names;
+  std::vector<unsigned> ins_rank;  // number of insertions made before the cell at each position was inserted
   std::unique_ptr<M> m;
   bool custom_ids = false;
   bool barcode_called = false;  // R-only: get_current_barcode() was called, only remove_last allowed from now on
@@ -170,7 +171,18 @@ class Driver {
   }
 
   // ---------------------------------------------------------------------------------------------- conversions
-  unsigned handle(size_t pos) const { return kIdIdx ? ids[pos] : unsigned(pos); }
+  // the index by which the accessors address the cell at position pos: identifier, position or MatIdx. For boundary
+  // matrices MatIdx == position. For chain matrices without vine updates the column of the last position is the last
+  // one of the container as well; with vine updates the container index is never reused after a removal (documented:
+  // "PosIdx == MatIdx ... not true for chain matrices when swaps or removals were performed"), so there the MatIdx is
+  // obtained the documented way, from the pivot (= identifier of the cell).
+  unsigned handle(size_t pos) const {
+    if constexpr (kIdIdx) return ids[pos];
+    if constexpr (kChain && O::has_vine_update && !kPosIdx) {
+      if (removals > 0) return unsigned(m->get_column_with_pivot(ids[pos]));
+    }
+    return unsigned(pos);
+  }
 
   BVec make_boundary(const ref::Cell& c) const {
     BVec b;
@@ -265,6 +277,7 @@ class Driver {
     cells.push_back(c);
     ids.push_back(id);
     names.push_back(name);
+    ins_rank.push_back(insertions);
     if (id + 1 > high_id) high_id = id + 1;
     ++insertions;
   }
@@ -368,9 +381,9 @@ class Driver {
       if constexpr (kChain && O::has_vine_update && !kPosIdx) {
         // known finding (same as C06-chain-remove-last-largest-id): Chain_matrix::remove_last with vine updates starts
         // its search for the largest identifier at (identifier 0, column 0); when the only cell left has identifier
-        // 0 but is not stored at index 0 (the index counter is never decremented with vine updates) it dereferences
-        // end().
-        if (cells.size() == 1 && ids[0] == 0 && insertions >= 2 && known("chain-vine-remove-last-id0")) {
+        // 0 but is not stored at index 0 (the index counter is never decremented with vine updates, so the column index
+        // of a cell is the number of insertions made before it) it dereferences end().
+        if (cells.size() == 1 && ids[0] == 0 && ins_rank[0] != 0 && known("chain-vine-remove-last-id0")) {
           hit_excluded("chain-vine-remove-last-id0");
           return false;
         }
@@ -381,6 +394,7 @@ class Driver {
       cells.pop_back();
       ids.pop_back();
       names.pop_back();
+      ins_rank.pop_back();
       gen.pop();
       ++removals;
       if constexpr (kChain && kPosIdx && !O::has_vine_update) {
